@@ -313,15 +313,28 @@ Definition sp : str := [32].
 Definition target_config (host path : str) (t : target) : str :=
   k_route ++ sp ++ k_add ++ sp ++ t_svc t ++ sp ++ host ++ path ++ sp ++ t_url t
   ++ (if w_is_pos (t_fw t) then sp ++ k_weight ++ sp ++ fmt4 (t_fw t) else [])
+  (* tags: the joined bytes between plain quotes, like the options (since /repo dfc4ae0; it was %q) *)
+  ++ (match t_tags t with [] => [] | _ => sp ++ k_tags ++ sp ++ [34] ++ join (t_tags t) [44] ++ [34] end)
+  ++ (match t_opts t with
+      | [] => []
+      | _ => sp ++ k_opts ++ sp ++ [34] ++ join (map (fun kv => fst kv ++ [61] ++ snd kv) (t_opts t)) sp ++ [34]
+      end).
+
+(* TargetConfig before dfc4ae0: tags printed with %q (finding F-C05-3a, fixed); used by the
+   refutation theorem only, as are [route_config_unrepaired] .. [render_unrepaired] below *)
+Definition target_config_unrepaired (host path : str) (t : target) : str :=
+  k_route ++ sp ++ k_add ++ sp ++ t_svc t ++ sp ++ host ++ path ++ sp ++ t_url t
+  ++ (if w_is_pos (t_fw t) then sp ++ k_weight ++ sp ++ fmt4 (t_fw t) else [])
   ++ (match t_tags t with [] => [] | _ => sp ++ k_tags ++ sp ++ quote_go (join (t_tags t) [44]) end)
   ++ (match t_opts t with
       | [] => []
       | _ => sp ++ k_opts ++ sp ++ [34] ++ join (map (fun kv => fst kv ++ [61] ++ snd kv) (t_opts t)) sp ++ [34]
       end).
 
-(* Route.config(false) *)
+(* Route.config(false): every target, also those whose effective weight is 0 (since /repo cb21db5;
+   only config(true), the listing with effective weights, still leaves them out) *)
 Definition route_config (host : str) (r : route) : list str :=
-  map (target_config host (r_path r)) (filter (live (r_targets r)) (r_targets r)).
+  map (target_config host (r_path r)) (r_targets r).
 
 (* hosts in descending order, '' last (Table.config) *)
 Fixpoint insert_host_desc (h : str) (hs : list str) : list str :=
@@ -340,3 +353,24 @@ Definition table_config (t : table) : list str :=
 
 (* Table.String() *)
 Definition render (t : table) : str := join (table_config t) [10].
+
+(* Table.String() between dfc4ae0 and cb21db5: targets with effective weight 0 are left out
+   (finding F-C05-2, fixed); refutation theorem only *)
+Definition route_config_skipping (host : str) (r : route) : list str :=
+  map (target_config host (r_path r)) (filter (live (r_targets r)) (r_targets r)).
+Definition table_config_skipping (t : table) : list str :=
+  flat_map (fun h => match lookup h t with
+                     | Some rs => flat_map (route_config_skipping h) rs
+                     | None => []
+                     end) (config_hosts t).
+Definition render_skipping (t : table) : str := join (table_config_skipping t) [10].
+
+(* Table.String() before /repo dfc4ae0 (tags with %q, and zero-weight targets left out) *)
+Definition route_config_unrepaired (host : str) (r : route) : list str :=
+  map (target_config_unrepaired host (r_path r)) (filter (live (r_targets r)) (r_targets r)).
+Definition table_config_unrepaired (t : table) : list str :=
+  flat_map (fun h => match lookup h t with
+                     | Some rs => flat_map (route_config_unrepaired h) rs
+                     | None => []
+                     end) (config_hosts t).
+Definition render_unrepaired (t : table) : str := join (table_config_unrepaired t) [10].
